@@ -10,6 +10,7 @@ import PxModel.DrvRelay
                  executor:  <n|0|1>@<tick>    (reaper after the round: not due / outcome of the comparison)
         <tick>, <buf>, <send>: as for `relay run` (PxModel/DrvRelay.lean); ticks are always masked
     modes fds <mode> <finished 0|1>
+    modes queue <spec>                           (NonBlockingQueue: p<n> = n puts, g<m> = m gets, `,`-joined)
     modes framing <unix flag 0|1> <kinds>        (kinds: string of t (TCP listener) / u (unix listener), `.` = none)
     modes handoff <sched>                        (`,`-joined thread ids, `.` = empty; the locked protocol of
                                                  delegate_work_to_pool under that schedule)
@@ -115,6 +116,26 @@ def drv (args : List String) : String :=
       | some ps => csv (ps.map (fun (p : Option Nat × Nat) =>
           (match p.1 with | none => "-" | some a => toString a) ++ ":" ++ toString p.2))
     s!"framing pipe={csv (pipe.map it)} recv={rc}"
+  | ["queue", spec] =>
+    -- spec: `,`-joined  p<n> (n puts, numbered consecutively) | g<m> (m gets)
+    let rec build (toks : List String) (next : Nat) (acc : List QOp) : Option (List QOp) :=
+      match toks with
+      | [] => some acc
+      | t :: r =>
+        match t.toList with
+        | 'p' :: d => match (String.ofList d).toNat? with
+          | some n => build r (next + n) (acc ++ (List.range n).map (fun i => QOp.put (next + i)))
+          | none => none
+        | 'g' :: d => match (String.ofList d).toNat? with
+          | some m => build r next (acc ++ List.replicate m QOp.get)
+          | none => none
+        | _ => none
+    match build (spec.splitOn ",") 0 [] with
+    | some ops =>
+      let s := qrun ops
+      let got := s.got.filterMap id
+      s!"queue got={got.length} inorder={b01 (got == List.range got.length)} empty={(s.got.filter (·.isNone)).length} left={s.q.length}"
+    | none => "bad-op"
   | ["live"] =>
     -- `C17_same_transcript_partial` / `C17_local_remote_identical`: the three transcripts coincide
     "live modes-equal=1"
